@@ -79,7 +79,8 @@ def check(run, P):
              "progress on its success path", minimum=2)
     run.rule("C14.fixpoint",
              "the fixed-point loop resets the change latch before each sweep and "
-             "leaves the loop only under 'not result.is_changed()'", minimum=2)
+             "leaves the loop only under 'not result.is_changed()'; each sweep works "
+             "on a freshly built list", minimum=3)
 
     f = P.func(f"{DATA}.unify")
     dom = kind_domain(P)
@@ -237,10 +238,22 @@ def _is_table_store(s):
 
 
 def _worklist(run, P):
+    from .util import find, first, has
     F = P.func(f"{DATA}.SymbolKindFinder.__call__")
-    # C14.progress: try statements whose handler catches UnableToInferKind and
-    # appends to a push buffer
-    n_sites = 0
+    r = first("V_res = SymbolKindTable()", F.node)
+    if r[0] is None:
+        raise AnalysisError("SymbolKindFinder.__call__: result table not found")
+    res = r[1]["V_res"]
+    # the progress flag: a local assigned both True and False
+    flags = {}
+    for x in ast.walk(F.node):
+        if isinstance(x, ast.Assign) and len(x.targets) == 1 and isinstance(x.targets[0], ast.Name) \
+                and isinstance(x.value, ast.Constant) and isinstance(x.value.value, bool):
+            flags.setdefault(x.targets[0].id, set()).add(x.value.value)
+    prog = [n for n, v in flags.items() if v == {True, False}]
+    if len(prog) != 1:
+        raise AnalysisError("SymbolKindFinder.__call__: progress flag not identified")
+    prog = prog[0]
     for t in ast.walk(F.node):
         if not isinstance(t, ast.Try):
             continue
@@ -253,20 +266,15 @@ def _worklist(run, P):
                         defers = True
         if not defers:
             continue
-        n_sites += 1
-        ok = any(isinstance(s, ast.Assign) and any(
-            isinstance(tg, ast.Name) and tg.id == "made_progress" for tg in s.targets)
-            and isinstance(s.value, ast.Constant) and s.value.value is True
-            for s in t.orelse)
-        sets = any(isinstance(x, ast.Call) and dotted(x.func) == "result.set"
-                   for s in t.orelse for x in ast.walk(s))
+        ok = any(has(f"{prog} = True", s_) for s_ in t.orelse)
+        sets = any(isinstance(x, ast.Call) and dotted(x.func) == f"{res}.set"
+                   for s_ in t.orelse for x in ast.walk(s_))
         run.ob("C14.progress", F, t, ok and sets,
                construct=f"try: {norm(t.body[0], 80)} ... else: "
-                         f"{'; '.join(norm(s, 60) for s in t.orelse)}",
+                         f"{'; '.join(norm(s_, 60) for s_ in t.orelse)}",
                why="a sweep in which only this branch succeeds is taken for 'no "
                    "progress' and inference aborts for some statement orders only")
 
-    # C14.fixpoint
     loops = [n for n in F.node.body if isinstance(n, ast.While)]
     outer = None
     for w in loops:
@@ -276,18 +284,16 @@ def _worklist(run, P):
         raise AnalysisError("SymbolKindFinder.__call__: outer 'while True' loop not found")
     g = CFG(F.node)
     resets = g.find(lambda n, fr: any(
-        isinstance(x, ast.Call) and dotted(x.func) == "result.reset_change_flag"
+        isinstance(x, ast.Call) and dotted(x.func) == f"{res}.reset_change_flag"
         for f_ in fr for x in walk_fragment(f_)) and n.kind == "stmt")
     inner_sets = []
     for n in g.nodes:
         if n.kind == "stmt" and n.ast is not None and _inside(outer, n.ast):
-            if any(isinstance(x, ast.Call) and dotted(x.func) == "result.set"
+            if any(isinstance(x, ast.Call) and dotted(x.func) == f"{res}.set"
                    for x in walk_fragment(n.ast)):
                 inner_sets.append(n)
     if not inner_sets:
-        raise AnalysisError("no result.set() in the fixed-point loop")
-    # every set in the loop is preceded (within the loop iteration) by reset:
-    # remove the loop back edge by starting from the loop head
+        raise AnalysisError("no <result>.set() in the fixed-point loop")
     head = g.node_of(outer)
     reach = g.reachable([head], avoid=resets, follow_exc=False)
     bad = [n for n in inner_sets if n in reach]
@@ -295,12 +301,32 @@ def _worklist(run, P):
            construct="result.reset_change_flag() before every result.set() of a sweep",
            why="a latch left over from the previous sweep (or from forced kinds) "
                "makes the loop condition meaningless")
-    breaks = [s for s in func_body_stmts(outer) if isinstance(s, ast.Break)
-              and _innermost_loop(outer, s) is outer]
+    # the sweep processes a freshly built work list: the list popped in the
+    # inner loop is (re)built inside the outer loop
+    pops = [x for x in ast.walk(outer) if isinstance(x, ast.Call)
+            and isinstance(x.func, ast.Attribute) and x.func.attr == "pop"
+            and isinstance(x.func.value, ast.Name)]
+    fresh_ok = False
+    if pops:
+        q = pops[0].func.value.id
+        builds = [s_ for s_ in outer.body if isinstance(s_, ast.Assign)
+                  and any(isinstance(t, ast.Name) and t.id == q for t in s_.targets)
+                  and isinstance(s_.value, (ast.List, ast.ListComp)) or (
+                      isinstance(s_, ast.Assign)
+                      and any(isinstance(t, ast.Name) and t.id == q for t in s_.targets)
+                      and isinstance(s_.value, ast.Call) and dotted(s_.value.func) == "list")]
+        fresh_ok = bool(builds)
+    run.ob("C14.fixpoint", F, outer, fresh_ok,
+           construct="the work list consumed by pop() is rebuilt (a new list) at the "
+                     "start of every sweep",
+           why="an aliased list emptied by the first sweep makes every later sweep "
+               "process nothing: a kind computed from a partial sum is never corrected")
+    breaks = [s_ for s_ in func_body_stmts(outer) if isinstance(s_, ast.Break)
+              and _innermost_loop(outer, s_) is outer]
     ok = bool(breaks)
-    for b in breaks:
-        parent = _parent_if(outer, b)
-        if parent is None or "not result.is_changed()" not in norm(parent.test):
+    for b_ in breaks:
+        parent = _parent_if(outer, b_)
+        if parent is None or norm(parent.test) != f"not {res}.is_changed()":
             ok = False
     run.ob("C14.fixpoint", F, breaks[0] if breaks else outer, ok,
            construct="break only under 'if not result.is_changed()'",
